@@ -26,16 +26,22 @@ MODELLED_NOT_VERIFIED = [
     "exact components / signed squares and the harness applies log/sqrt",
     "C17: dicts keyed by node objects (nd_mi, subtree_leaves, the age attribute) are modelled by values returned from the recursion; "
     "set_node_age_fn (tip dating callback) and stale age attributes before pybus_harvey_gamma are not modelled",
+    "C17: inputs with None lengths are outside the statement for depths / root distances / lineages / forcing options: any ordinary "
+    "refusal (TypeError, ValueError, ...) is compared as 'Undefined'",
     "C17: out-of-domain inputs are compared only up to 'Undefined' for statistics (non-binary trees for Colless/gamma, 2 leaves for gamma "
     "and Colless-max, None lengths / zero total for treeness); num_lineages_at on zero-length edges is compared with the model only",
 ]
 EXPLANATION = ("Theorems (Props/C17.lean) about the definitions drv_c17 runs, numbers read in Q through Frac.toRat: ages_spec / "
                "ages_exact_spec (paths within eps => accepted, every age within eps of / equal to every tip distance), age_is_tip_distance, "
-               "reject_spec (rejected iff some node's other child deviates from its first child by more than eps: both sides of every eps), "
-               "reject_only_beyond_precision, check_disabled_spec, force_max_spec / force_min_spec / force_both_spec, "
-               "lengths_from_ages_roundtrip, lineages_spec, length/sackin/nbar/harmonic/colless/b1/treeness/gamma _eq_def (one-pass "
-               "accumulations = textbook sums), stats_perm_invariant_partial (child order; gamma missing: tested only). Depths / "
-               "resolve_node_ages are covered by the oracle and the correspondence only (the model is the definition).")
+               "reject_iff_local (the code's exact local criterion), accepted_bound (accepted => |age - tip distance| <= height*eps at "
+               "every node), reject_beyond_bound (two paths differing by > 2*height*eps => rejected), reject_only_beyond_precision, "
+               "check_disabled_spec, force_max/min/both_spec, default_precision_enables_check, lengths_from_ages_roundtrip_partial "
+               "(exactly ultrametric only), lineages_spec, leaf_depths_spec, minmax_spec, length/sackin/nbar/harmonic/colless/b1/treeness "
+               "_eq_def, gamma_loop_eq_sums, gamma_eq_def_partial (end to end from the sorted speciation ages; the lineage-count reading "
+               "of the intervals is not proved), stats_perm_invariant_partial (child order for the functions the driver runs; gamma "
+               "missing: tested only). The literal clause 'paths differing by more than the precision are rejected' is false of the "
+               "code (deviations accumulate along first-child chains): evaluated by the oracle and listed as known finding "
+               "ultrametricity-drift-accumulates. Internal-node depths / resolve_node_ages: oracle and correspondence only.")
 
 EPS_ABS = Fraction(1, 10 ** 12)
 REL = Fraction(1, 10 ** 9)
@@ -85,6 +91,13 @@ def exc_name(e, dendropy, stat=False):
         if isinstance(e, cls):
             return cls.__name__
     return "Internal(%s)" % type(e).__name__
+
+
+def lenient(s, on):
+    """inputs with None lengths are outside the statement for depths / lineages / forcing: any ordinary refusal counts alike"""
+    if on and s in ("TypeError", "ValueError", "ZeroDivisionError", "NotBinary"):
+        return "Undefined"
+    return s
 
 
 def model_stat(s):
@@ -139,6 +152,9 @@ class Info(object):
             p = self.par[i]
             self.rootd[i] = F(0) if p is None else self.rootd[p] + self.len[i]
             self.level[i] = 0 if p is None else self.level[p] + 1
+        self.fchain = {}    # distance to the tip reached by always taking the first child
+        for i in order:
+            self.fchain[i] = F(0) if not self.kids[i] else self.fchain[self.kids[i][0]] + self.len[self.kids[i][0]]
         self.leaves = [i for i in range(self.n) if not self.kids[i]]
         self.nonroot_none = any(self.has_none[i] for i in range(self.n) if i != self.root)
         self.exact_ultra = all(len(set(self.tipd[i])) == 1 for i in range(self.n))
@@ -146,6 +162,11 @@ class Info(object):
 
     def spread(self, i):
         return max(self.tipd[i]) - min(self.tipd[i])
+
+    def local_ok(self, p):
+        """every other child agrees with the first child (first-child chains) within p, at every node"""
+        return all(abs(self.fchain[i] - (self.fchain[c] + self.len[c])) <= p
+                   for i in range(self.n) for c in self.kids[i][1:])
 
 
 def mk(dendropy, toks):
@@ -195,8 +216,10 @@ def op_ages(ctx, D, case):
     except Exception as e:   # noqa
         got = exc_name(e, D)
         ages = None
-    # ---- oracle
     forced = fmax or fmin
+    len_tr = "lenient" if (forced and not (fmax and fmin) and info.nonroot_none) else None
+    got = lenient(got, len_tr is not None)
+    # ---- oracle
     tol = (lambda x: x) if exact else (lambda x: x + EPS_ABS + REL * 100)
     if fmax and fmin:
         if got != "ValueError":
@@ -246,8 +269,22 @@ def op_ages(ctx, D, case):
             if bad:
                 ctx.fail("accept_beyond", "every tip below child %d of node %d differs from every tip below its first child by at "
                          "least %s > precision %s, but the tree was accepted" % (bad[1], bad[0], bad[2], p), case)
+            if info.spread(info.root) > tol(p):
+                # the statement, literally: paths differing by more than the precision must be rejected
+                rep_case = dict((k, v) for k, v in case.items() if k != "finding")
+                if info.local_ok(tol(p)):
+                    # every first-child comparison is within the precision: the listed known finding (deviations accumulate)
+                    ctx.fail("accept_beyond_spread", "root-to-tip paths differ by %s > precision %s but the tree was accepted "
+                             "(every node's other children agree with its first child within the precision)" % (
+                                 info.spread(info.root), p), dict(rep_case, finding="accumulated-drift"))
+                else:
+                    ctx.fail("accept_beyond_local", "root-to-tip paths differ by %s > precision %s, some node's other child "
+                             "deviates from its first child by more than the precision, yet the tree was accepted" % (
+                                 info.spread(info.root), p), rep_case)
+            within = info.spread(info.root) <= p
             for i in range(info.n):
-                lim = tol(info.height[i] * p)
+                # paths within the precision: every age within the precision of every tip distance; otherwise height * precision
+                lim = tol(p if within else info.height[i] * p)
                 if any(abs(F(ages[i]) - d) > lim for d in info.tipd[i]):
                     ctx.fail("age_vs_tip_distance", "node %d: age %s, tip distances %s, precision %s" % (
                         i, ages[i], sorted(set(info.tipd[i]))[:6], p), case)
@@ -259,7 +296,7 @@ def op_ages(ctx, D, case):
         if via != "calc" and list(ret) != sorted(ret):
             ctx.fail("returned_ages", "%s is not sorted" % via, case)
     line = "ages %s %d %d %d %s" % (ptok, fmax, fmin, io, " ".join(toks))
-    return [(line, got, exact, None)]
+    return [(line, got, exact, len_tr)]
 
 
 def op_setlen(ctx, D, case):
@@ -276,7 +313,9 @@ def op_setlen(ctx, D, case):
         pkw, ptok, p = prec_value(D, case["prec"])
         try:
             tree.calc_node_ages(**pkw)
-            ages = [F(nd.age) for nd in info.nodes]
+            # expected lengths come from independently computed ages where the statement fixes them (exactly
+            # ultrametric: age = tip distance); otherwise from the ages the library just assigned
+            ages = [info.tipd[i][0] for i in range(info.n)] if info.exact_ultra else [F(nd.age) for nd in info.nodes]
         except Exception as e:  # noqa
             got = exc_name(e, D)
             line = "roundtrip %s %s %d %s" % (ptok, ml, errneg, " ".join(toks))
@@ -333,6 +372,7 @@ def op_depths(ctx, D, case):
     # resolve_node_depths
     tree, ids = mk(D, toks)
     info = Info(tree, ids)
+    ltr = "lenient" if info.nonroot_none else None
     wantd = [info.rootd[i] for i in range(info.n)]
     try:
         cache = tree.resolve_node_depths()
@@ -341,7 +381,7 @@ def op_depths(ctx, D, case):
         if any(F(cache[info.nodes[i]]) != F(dep[i]) for i in range(info.n)):
             ctx.fail("depth", "resolve_node_depths: returned cache differs from the depth attributes", case)
     except Exception as e:  # noqa
-        got = exc_name(e, D)
+        got = lenient(exc_name(e, D), info.nonroot_none)
         dep = None
     if info.nonroot_none:
         if dep is not None and any(F(dep[i]) != wantd[i] for i in range(info.n)):
@@ -350,7 +390,7 @@ def op_depths(ctx, D, case):
         ctx.fail("depth_error", "resolve_node_depths raised %s" % got, case)
     elif any(F(dep[i]) != wantd[i] for i in range(info.n)):
         ctx.fail("depth", "resolve_node_depths: depths %s, distances from the root %s" % (dep[:8], wantd[:8]), case)
-    out.append(("depths " + " ".join(toks), got, True, None))
+    out.append(("depths " + " ".join(toks), got, True, ltr))
     # calc_node_root_distances (+ max_distance_from_root, minmax_leaf_distance_from_root)
     tree, ids = mk(D, toks)
     info2 = Info(tree, ids)
@@ -370,15 +410,15 @@ def op_depths(ctx, D, case):
                 mn, mx, mx2, min(lw), max(lw)), case)
         got3 = "ok %s %s" % (fr(mn), fr(mx))
     except Exception as e:  # noqa
-        got2 = got3 = exc_name(e, D)
+        got2 = got3 = lenient(exc_name(e, D), info.nonroot_none)
         rd = None
     if rd is None:
         if not info.nonroot_none:
             ctx.fail("depth_error", "calc_node_root_distances raised %s" % got2, case)
     elif any(F(rd[i]) != wantd[i] for i in range(info.n)):
         ctx.fail("root_distance", "root_distance attributes %s, distances from the root %s" % (rd[:8], wantd[:8]), case)
-    out.append(("depths " + " ".join(toks), got2, True, None))
-    out.append(("minmax " + " ".join(toks), got3, True, None))
+    out.append(("depths " + " ".join(toks), got2, True, ltr))
+    out.append(("minmax " + " ".join(toks), got3, True, ltr))
     # resolve_node_ages
     tree, ids = mk(D, toks)
     info3 = Info(tree, ids)
@@ -387,7 +427,7 @@ def op_depths(ctx, D, case):
         ra = [info3.nodes[i].age for i in range(info3.n)]
         got4 = "ok " + " ".join(fr(x) for x in ra)
     except Exception as e:  # noqa
-        got4 = exc_name(e, D)
+        got4 = lenient(exc_name(e, D), info.nonroot_none)
         ra = None
     if ra is None:
         if not info.nonroot_none:
@@ -402,7 +442,7 @@ def op_depths(ctx, D, case):
                 ctx.fail("resolved_age", "resolve_node_ages on an ultrametric tree: node %d has age %s, tip distance %s" % (
                     i, ra[i], info.tipd[i][0]), case)
                 break
-    out.append(("rages " + " ".join(toks), got4, True, None))
+    out.append(("rages " + " ".join(toks), got4, True, ltr))
     return out
 
 
@@ -411,11 +451,12 @@ def op_lineages(ctx, D, case):
     d = F(case["d"])
     tree, ids = mk(D, toks)
     info = Info(tree, ids)
+    ltr = "lenient" if info.nonroot_none else None
     try:
         k = tree.num_lineages_at(float(d))
         got = "ok %d" % k
     except Exception as e:  # noqa
-        got = exc_name(e, D)
+        got = lenient(exc_name(e, D), info.nonroot_none)
         k = None
     nonroot = [i for i in range(info.n) if info.par[i] is not None]
     if not info.nonroot_none and all(info.len[i] > 0 for i in nonroot):
@@ -424,7 +465,7 @@ def op_lineages(ctx, D, case):
             ctx.fail("lineages_error", "num_lineages_at raised %s" % got, case)
         elif k != want:
             ctx.fail("lineages", "num_lineages_at(%s) = %d; %d edges cross that distance" % (d, k, want), case)
-    return [("lineages %s %s" % (fr(d), " ".join(toks)), got, True, None)]
+    return [("lineages %s %s" % (fr(d), " ".join(toks)), got, True, ltr)]
 
 
 def yule_colless(c, n):
@@ -554,8 +595,10 @@ def post_model(m, tr):
         return None
     m = m.strip()
     if not m.startswith("ok "):
+        if tr == "lenient":
+            return lenient(m, True)
         return m if tr == "plain" else model_stat(m)
-    if tr in ("plain", "stat"):
+    if tr in ("plain", "stat", "lenient"):
         return m
     if tr == "sqrt":
         v = F(m.split()[1])
